@@ -313,10 +313,79 @@ def w0(x: int, y: int) -> int:
 }
 
 
-def corpus(kind: str, region: str | None = None) -> list[str]:
+def gen_c07_program(j: int, seed: int) -> str:
+    """a generated caller: an int array xs, a second one ys and a 2 x 3 array of arrays m, a random sequence of borrowing calls (with computed, sometimes
+    effectful indices and values), some of them under `if` / inside a `for`; all elements are observed at the end"""
+    import random
+    r = random.Random(f"c07-{seed}-{j}")
+    atoms = ["x", "y", "1", "2", "5", "r"]
+
+    def atom():
+        return r.choice(atoms)
+
+    def val():
+        k = r.random()
+        if k < 0.3:
+            return f"{r.choice('fgh')}({atom()})"
+        if k < 0.6:
+            return f"({atom()} + {atom()})"
+        return atom()
+
+    def idx(n):
+        k = r.random()
+        if k < 0.35:
+            return str(r.randrange(n))
+        if k < 0.55:
+            return f"{r.choice('fgh')}({atom()}) % {n}"
+        return f"({atom()} + {atom()}) % {n}"
+
+    def stmt():
+        t = r.randrange(13)
+        if t == 0:
+            return f"set_at(xs, {idx(3)}, {val()})"
+        if t == 1:
+            return f"r += add_at(xs, {idx(3)}, {val()})"
+        if t == 2:
+            return "swap01(ys)"
+        if t == 3:
+            return "rot(xs)"
+        if t == 4:
+            return f"r += twice(ys, {idx(3)})"
+        if t == 5:
+            return f"fill(ys, {val()})"
+        if t == 6:
+            return f"cond_set(xs, {atom()} > {atom()}, {val()})"
+        if t == 7:
+            return "two(xs, ys)"
+        if t == 8:
+            return f"row_set(m, {idx(2)}, {r.randrange(3)}, {val()})"
+        if t == 9:
+            return f"row_rot(m, {idx(2)})"
+        if t == 10:
+            return f"set_at(m[{idx(2)}], {r.randrange(3)}, {val()})"
+        if t == 11:
+            return f"rot(m[{idx(2)}])"
+        return f"r += add_at(m[{r.randrange(2)}], {idx(3)}, {atom()})"
+
+    lines = [f"def c{j}(x: int, y: int) -> int:", "    r = 0", "    xs = array(x, 2, 3)", "    ys = array(4, y, 6)", "    m = array(array(1, 2, 3), array(x, y, 6))"]
+    for _ in range(r.randint(3, 6)):
+        k = r.random()
+        if k < 0.2:
+            lines += [f"    if {atom()} > {atom()}:", f"        {stmt()}"] + ([f"    else:", f"        {stmt()}"] if r.random() < 0.5 else [])
+        elif k < 0.3:
+            lines += [f"    for i in range({r.randint(1, 3)}):", f"        {stmt()}"]
+        else:
+            lines.append(f"    {stmt()}")
+    lines.append("    return r + xs[0] + xs[1] * 3 + xs[2] * 5 + ys[0] * 7 + ys[1] * 11 + ys[2] * 13 + m[0][0] * 17 + m[0][1] * 19 + m[0][2] * 23 + m[1][0] * 29 + m[1][1] * 31 + m[1][2] * 37")
+    return "\n".join(lines) + "\n"
+
+
+def corpus(kind: str, region: str | None = None, n: int = 0, seed: int = 0) -> list[str]:
     if region:
         return list(C19_REGIONS.get(region, [])) if kind == "c19" else []
-    return list(C07_FIXED if kind == "c07" else C19_FIXED)
+    if kind == "c07":
+        return list(C07_FIXED) + [gen_c07_program(j, seed) for j in range(n)]
+    return list(C19_FIXED)
 
 
 def module_text(progs: list[str]) -> str:
